@@ -35,6 +35,14 @@ Proof. vm_compute. split; repeat constructor. Qed.
    batch channel never closes and the final render never happens. *)
 Theorem C05_no_reentrant_lock : sync_reentrant = [].
 Proof. vm_compute. reflexivity. Qed.
+(* translator obligation (termination clause): no channel send or receive that can block is made - directly or
+   through a call within the package - while a mutex is held. The transition systems of Model/Pipeline.v and
+   Model/AggLoop.v treat a critical section as ONE action that always completes; a reader that parks on the
+   full batch channel inside Batcher.mux would make the renderer (which holds the output mutex and asks for
+   the status line) wait for the workers, the workers for the aggregation loop, and the loop for the
+   renderer - a cycle none of the no-deadlock theorems below would be about *)
+Theorem C05_no_blocking_under_lock : sync_blocking_under_lock = [].
+Proof. vm_compute. reflexivity. Qed.
 Theorem C05_reentrant_rlock_deadlocks : forall g w l s s',
   stuck g w s -> Forall (fun p => fst p <> g /\ fst p <> w) l -> run s l = Some s' ->
   RWLock.step s' g ARLock = None /\ RWLock.step s' w AAcquire = None.
